@@ -1576,4 +1576,178 @@ theorem phase1_congr (x : IState) (bs' : List (String × INode))
       rw [convStep_congr x bs' h c T (hts T List.mem_cons_self)]
       exact ih _ (fun T' hT' => hts T' (List.mem_cons_of_mem _ hT'))
   exact this _ _ (fun T hT => ((pass1_digestTags _ T).mp hT).1)
+
+/-- two indexes with the same observations still have the same observations after the same clean-up -/
+theorem obs_after_cleanup (ixa ixb : Index) (rm : List Desc) (hok : ∀ T ∈ rm, RmOk T)
+    (ha : NoBoth ixa.manifests) (hb : NoBoth ixb.manifests)
+    (htag : ∀ e, e.ann.isNil = false → e.ann.tag ≠ "" → (e ∈ ixa.manifests ↔ e ∈ ixb.manifests))
+    (hresp : ∀ S g, S ≠ "" → (HasResp ixa S g ↔ HasResp ixb S g))
+    (hlisted : ∀ g, Listed ixa g ↔ Listed ixb g) :
+    (∀ t g, t ≠ "" → (HasTag (rm.foldl rmDesc ixa) t g ↔ HasTag (rm.foldl rmDesc ixb) t g)) ∧
+    (∀ S g, S ≠ "" → (HasResp (rm.foldl rmDesc ixa) S g ↔ HasResp (rm.foldl rmDesc ixb) S g)) ∧
+    (∀ g, Listed (rm.foldl rmDesc ixa) g ↔ Listed (rm.foldl rmDesc ixb) g) := by
+  obtain ⟨_, m2, m3, _, _, _, _⟩ := rmFold_spec rm ixa hok ha
+  obtain ⟨_, n2, n3, _, _, _, _⟩ := rmFold_spec rm ixb hok hb
+  refine ⟨?_, ?_, ?_⟩
+  · intro t g ht
+    rw [rmFold_tags rm ixa hok t g ht, rmFold_tags rm ixb hok t g ht]
+    have : HasTag ixa t g ↔ HasTag ixb t g := by
+      unfold HasTag
+      constructor
+      · rintro ⟨e, he, hn, h1, h2⟩
+        exact ⟨e, (htag e hn (by rw [h1]; exact ht)).mp he, hn, h1, h2⟩
+      · rintro ⟨e, he, hn, h1, h2⟩
+        exact ⟨e, (htag e hn (by rw [h1]; exact ht)).mpr he, hn, h1, h2⟩
+    rw [this]
+  · intro S g hS; rw [m2 S g hS, n2 S g hS, hresp S g hS]
+  · intro g; rw [m3 g, n3 g, hlisted g]
+
+/-- C17, "interrupting it at any point and repeating it gives the same result": a conversion that died after
+    writing some of its blobs `pre` and before saving index.json left the old index.json and the blobs
+    `x.blobs ++ pre`; converting that gives what the uninterrupted conversion of `x` gives -/
+theorem convert_interrupted_main (nm : List Desc → String)
+    (order order' : List (String × List Desc) → List (String × List Desc))
+    (horder : ∀ l, (order l).Perm l) (horder' : ∀ l, (order' l).Perm l) (x : IState) (hc : x.converted = false)
+    (hnb : NoBoth x.index.manifests) (hch : x.index.children = []) (hne : lookup x.blobs "" = none)
+    (hrp : RespPresent x.blobs (pass1 x.index.manifests).respOf) (hnm : NoCollision nm x)
+    (hcas : ∀ ds n, lookup x.blobs (nm ds) = some n → n = .idx ds)
+    (pre : List (String × INode))
+    (hpre : ∀ kv ∈ pre, ∃ l, Written x l ∧ kv = (nm l, INode.idx l))
+    (hfresh : ∀ kv ∈ pre, Mentioned x kv.1 → (lookup x.blobs kv.1).isSome = true) :
+    ObsEq (ingest nm order' { x with blobs := x.blobs ++ pre }) (ingest nm order x) := by
+  have hread : ∀ g, Mentioned x g → lookup (x.blobs ++ pre) g = lookup x.blobs g := by
+    intro g hg
+    cases hl : lookup x.blobs g with
+    | some n => exact lookup_append_some _ _ _ _ hl
+    | none =>
+      rw [lookup_append_none _ _ _ hl]
+      cases hp : lookup pre g with
+      | none => rfl
+      | some n =>
+        have := hfresh (g, n) (lookup_mem hp) hg
+        simp only at this
+        rw [hl] at this; cases this
+  have hph : phase1 { x with blobs := x.blobs ++ pre } = phase1 x := phase1_congr x _ hread
+  have hext : ∀ g n, lookup x.blobs g = some n → lookup (x.blobs ++ pre) g = some n :=
+    fun g n h => lookup_append_some _ _ _ _ h
+  have hrpc : RespPresent x.blobs (phase1 x).respOf := phase1_respPresent x hrp
+  have hrp' : RespPresent (x.blobs ++ pre) (pass1 x.index.manifests).respOf := respPresent_ext _ _ _ hrp hext
+  have inv := phase1_invA x hnb hch
+  have hok := rmOk_of_invA inv hne
+  -- the digests and lists of the regenerated responses are the same in both runs
+  have hlist : ∀ kv, regenList (x.blobs ++ pre) (phase1 x).respOf kv = regenList x.blobs (phase1 x).respOf kv := by
+    intro kv; unfold regenList; rw [oldContent_stable _ _ _ hrpc hext]
+  have hpairs : ∀ L, regenPairs nm { x with blobs := x.blobs ++ pre } L = regenPairs nm x L := by
+    intro L
+    unfold regenPairs
+    rw [hph]
+    apply List.map_congr_left
+    intro kv _
+    show (kv.1, nm (regenList (x.blobs ++ pre) (phase1 x).respOf kv)) = (kv.1, nm (regenList x.blobs (phase1 x).respOf kv))
+    rw [hlist]
+  have hblobsL : ∀ L, regenBlobs nm { x with blobs := x.blobs ++ pre } L = regenBlobs nm x L := by
+    intro L
+    unfold regenBlobs
+    rw [hph]
+    apply List.map_congr_left
+    intro kv _
+    show (nm (regenList (x.blobs ++ pre) (phase1 x).respOf kv), regenList (x.blobs ++ pre) (phase1 x).respOf kv) =
+      (nm (regenList x.blobs (phase1 x).respOf kv), regenList x.blobs (phase1 x).respOf kv)
+    rw [hlist]
+  obtain ⟨a1, _, a3, a4, a5, a6⟩ := convState_spec nm order horder x hnb hch hrp
+  obtain ⟨b1, _, b3, b4, b5, b6⟩ := convState_spec nm order' horder' { x with blobs := x.blobs ++ pre } hnb hch hrp'
+  rw [hph] at b3 b4 b5 b6
+  rw [hpairs] at b4 b5
+  rw [hblobsL] at b6
+  have hc' : ({ x with blobs := x.blobs ++ pre } : IState).converted = false := hc
+  obtain ⟨o1, o2, o3⟩ := obs_after_cleanup (convState nm order' { x with blobs := x.blobs ++ pre }).index
+    (convState nm order x).index (phase1 x).rm hok b1 a1
+    (fun e hn ht => (b3 e hn ht).trans (a3 e hn ht).symm)
+    (fun S g hS => (b4 S g hS).trans (a4 S g hS).symm)
+    (fun g => (b5 g).trans (a5 g).symm)
+  have hm' := ingest_manifests_nc nm order' { x with blobs := x.blobs ++ pre } hc'
+  rw [hph] at hm'
+  have hm := ingest_manifests_nc nm order x hc
+  refine ⟨by rw [ingest_converted_true, ingest_converted_true], ?_, ?_, ?_, ?_⟩
+  · intro t g ht
+    have := o1 t g ht
+    unfold HasTag at this ⊢
+    rw [hm', hm]; exact this
+  · intro S g hS
+    have := o2 S g hS
+    unfold HasResp at this ⊢
+    rw [hm', hm]; exact this
+  · intro g
+    have := o3 g
+    unfold Listed at this ⊢
+    rw [hm', hm]; exact this
+  · -- the blobs: what was written before the interruption is what the conversion writes
+    intro g
+    rw [ingest_blobs_nc nm order' _ hc', ingest_blobs_nc nm order x hc, b6 g, a6 g]
+    obtain ⟨p1, p2, p3⟩ := blobFold_spec (regenBlobs nm x (order' (phase1 x).addResp)) (x.blobs ++ pre)
+    obtain ⟨q1, q2, q3⟩ := blobFold_spec (regenBlobs nm x (order (phase1 x).addResp)) x.blobs
+    have hqs : ∀ p, p ∈ regenBlobs nm x (order' (phase1 x).addResp) ↔ p ∈ regenBlobs nm x (order (phase1 x).addResp) := by
+      intro p
+      unfold regenBlobs
+      exact (((horder' _).trans (horder _).symm).map _).mem_iff
+    have hinj := regenBlobs_inj nm x hnm (order (phase1 x).addResp) (fun kv h => (horder _).mem_iff.mp h)
+    -- a regenerated blob looked up in the uninterrupted run
+    have hwritten : ∀ l, Written x l → lookup (blobFold (regenBlobs nm x (order (phase1 x).addResp)) x.blobs) (nm l) = some (.idx l) := by
+      rintro l ⟨kv, hkv, rfl⟩
+      have hmem : (nm (regenList x.blobs (phase1 x).respOf kv), regenList x.blobs (phase1 x).respOf kv) ∈
+          regenBlobs nm x (order (phase1 x).addResp) := by
+        unfold regenBlobs
+        exact List.mem_map.mpr ⟨kv, (horder _).mem_iff.mpr hkv, rfl⟩
+      have hs := q3 _ hmem
+      simp only at hs
+      cases hl : lookup (blobFold (regenBlobs nm x (order (phase1 x).addResp)) x.blobs)
+          (nm (regenList x.blobs (phase1 x).respOf kv)) with
+      | none => rw [hl] at hs; cases hs
+      | some n =>
+        rcases q2 _ n hl with h | ⟨p', hp', h1, h2⟩
+        · rw [hcas _ n h]
+        · have := hinj _ hmem p' hp' h1
+          simp only at this
+          rw [h2, ← this]
+    have key1 : ∀ n, lookup (blobFold (regenBlobs nm x (order' (phase1 x).addResp)) (x.blobs ++ pre)) g = some n →
+        lookup (blobFold (regenBlobs nm x (order (phase1 x).addResp)) x.blobs) g = some n := by
+      intro n hl
+      rcases p2 g n hl with h | ⟨p, hp, hg, hn⟩
+      · cases hx : lookup x.blobs g with
+        | some n' =>
+          rw [lookup_append_some _ _ _ _ hx] at h
+          rw [← h]
+          exact q1 g n' hx
+        | none =>
+          rw [lookup_append_none _ _ _ hx] at h
+          obtain ⟨l, hw, hkv⟩ := hpre (g, n) (lookup_mem h)
+          cases hkv
+          exact hwritten l hw
+      · have hp' := (hqs p).mp hp
+        unfold regenBlobs at hp'
+        obtain ⟨kv, hkv, rfl⟩ := List.mem_map.mp hp'
+        simp only at hg hn
+        rw [hg, hn]
+        exact hwritten _ ⟨kv, (horder _).mem_iff.mp hkv, rfl⟩
+    have key2 : ∀ n, lookup (blobFold (regenBlobs nm x (order (phase1 x).addResp)) x.blobs) g = some n →
+        lookup (blobFold (regenBlobs nm x (order' (phase1 x).addResp)) (x.blobs ++ pre)) g = some n := by
+      intro n hl
+      rcases q2 g n hl with h | ⟨p, hp, hg, hn⟩
+      · exact p1 g n (hext g n h)
+      · have hs := p3 p ((hqs p).mpr hp)
+        rw [← hg] at hs
+        cases hl' : lookup (blobFold (regenBlobs nm x (order' (phase1 x).addResp)) (x.blobs ++ pre)) g with
+        | none => rw [hl'] at hs; cases hs
+        | some n' =>
+          have := key1 n' hl'
+          rw [hl] at this
+          cases this; rfl
+    cases hl : lookup (blobFold (regenBlobs nm x (order' (phase1 x).addResp)) (x.blobs ++ pre)) g with
+    | some n => exact (key1 n hl).symm
+    | none =>
+      cases hl2 : lookup (blobFold (regenBlobs nm x (order (phase1 x).addResp)) x.blobs) g with
+      | none => rfl
+      | some n =>
+        have := key2 n hl2
+        rw [hl] at this; cases this
 end Upd
